@@ -110,8 +110,9 @@ func brEventsOf(blocks []*bstream.PreprocessedBlock) []fkEvent {
 	for _, pb := range blocks {
 		fo := pb.Obj.(*forkable.ForkableObject)
 		c := fo.Cursor()
-		ev := fkEvent{Step: int(fo.Step()), Blk: fkFromPB(pb.Block), CBlk: fkRefOf(c.Block), Head: fkRefOf(c.HeadBlock), Lib: fkRefOf(c.LIB),
-			Idx: fo.StepIndex, Count: fo.StepCount}
+		// W3: the cursor's own step is observed too (fkCursorBlk: a cursor whose step is not the event's has no valid cursor block)
+		ev := fkEvent{Step: int(fo.Step()), Blk: fkFromPB(pb.Block), CBlk: fkCursorBlk(c, fo.Step()), Head: fkRefOf(c.HeadBlock), Lib: fkRefOf(c.LIB),
+			Idx: fo.StepIndex, Count: fo.StepCount, CStep: int(c.Step)}
 		if j := fo.ReorgJunctionBlock(); j != nil {
 			r := fkRefOf(j)
 			ev.Junc = &r
